@@ -1,7 +1,7 @@
 #!/venv/bin/python
 """Bounded check for C10: every run gets its own run directory and never touches an earlier run's results (oracle = the property statement).
 
- scope  all sequences of length <= 3 (thorough <= 4) of runs drawn from {2 named-paths groups} x {new instance, reused instance} x
+ scope  sequences of length <= 3 (thorough <= 4; all of length <= 2, stride samples of the longer ones, every history of one group/one method) of runs drawn from {2 named-paths groups} x {new instance, reused instance} x
         {collect_paths, fast_forward_by_line} x {clock step: same second, +1 s, 12:59:59 -> 13:00:00, 23:59:59 -> 00:00:00 next day};
         the wall clock is the environment: csvpath.csvpaths.datetime is replaced by a scripted clock.
 """
@@ -42,6 +42,15 @@ def main():
     for n in range(1, L + 1):
         for combo in itertools.product(kinds, repeat=n):
             seqs.append(combo)
+    if b.thorough():
+        # all sequences of length <= 2, a 1-in-4 slice of length 3, a 1-in-400 slice of length 4, and every length-4 history of one group under one run method
+        short = [s for s in seqs if len(s) <= 2]
+        l3 = [s for s in seqs if len(s) == 3][::4]
+        l4 = [s for s in seqs if len(s) == 4][::400]
+        one = [k for k in kinds if k[0] == "ga" and k[2] == "collect_paths"]
+        focus = [c for c in itertools.product(one, repeat=4)]
+        seqs = short + l3 + l4 + focus
+        b.exhaustive = False
     if not b.thorough():
         # all sequences of length <= 2, and a stride sample of length 3
         short = [s for s in seqs if len(s) <= 2]
